@@ -409,6 +409,37 @@ Definition call_read (d : definfo) (implicit ctor : bool) (r : rendered) : optio
   else Some (mkCall (r_fname r) args0 (r_kws r) (r_star r) (r_kwstar r) implicit ctor).
 
 (* ------------------------------------------------------------------------------------------------ *)
+(* Call-site discovery of ChangeSignature._change_calls / _ChangeCallsInModule, over what the callee
+   expression of a call statically denotes:
+     CTarget    the changed function itself (f, m.f, o.meth, A.meth, A.__init__ ...)
+     CClass     the class whose __init__ is the changed function (A(...), m.A(...), self.A(...))
+     CSubclass  a subclass that inherits that __init__ (class B(A): pass; B(...))
+     COther     anything else.
+   occurrences.create_finder(name, pyname) yields the occurrences of the function; for __init__
+   _MultipleFinders adds create_finder(class name, class pyname, only_calls=True).  A subclass has a
+   pyname of its own, so its constructor calls are in neither finder: they are left alone. *)
+Inductive callee := CTarget | CClass | CSubclass | COther.
+
+Definition finder_finds (is_init : bool) (k : callee) : bool :=
+  match k with
+  | CTarget => true
+  | CClass => is_init
+  | CSubclass | COther => false
+  end.
+
+Record psite := mkPsite { ps_callee : callee; ps_implicit : bool; ps_ctor : bool; ps_call : rendered }.
+
+(* _ChangeCallsInModule.get_changed_module for one call occurrence: found -> read, change, print;
+   not found -> the text stays.  None = rope raises. *)
+Definition change_site (rdel is_init : bool) (d : definfo) (cs : list changer) (s : psite) : option rendered :=
+  if finder_finds is_init (ps_callee s) then
+    match call_read d (ps_implicit s) (ps_ctor s) (ps_call s) with
+    | None => None
+    | Some c => match change_call rdel cs d c with Some c' => call_render c' | None => None end
+    end
+  else Some (ps_call s).
+
+(* ------------------------------------------------------------------------------------------------ *)
 (* Specification: Python's call binding (PEP 3102-free fragment: positional-or-keyword parameters
    with defaults, *a, **k).  Written from the language reference, independently of ArgumentMapping.   *)
 Record binding := mkBind {
